@@ -338,8 +338,8 @@ func checkCmd(args []string) {
 			violations++
 			path := filepath.Join(verifDir(), "replay", fmt.Sprintf("%s-%s.json", prop, mangle(f.Case)))
 			rf := map[string]any{"property": prop, "obligation": name, "kind": "bounded-monitor", "case": f.Case, "what": f.What, "tier": tier,
-				"failing_input": "the case string is the input (kind/chain/entropy name); `./check replay <this file>` re-runs the supplement on the real code",
-				"contract": spec.Title, "rerun": "cd /verif && ./check " + prop + " " + tier}
+				"failing_input": "the case string is the input (configuration, data shape, size and seed); `./check replay <this file>` rebuilds it and runs the real code on it",
+				"contract": spec.Title, "rerun": "cd /verif && ./check replay " + path}
 			b, _ := json.MarshalIndent(rf, "", " ")
 			os.WriteFile(path, b, 0o644)
 			fmt.Printf("VIOLATION property=%s replay=%s obligation=%s (%s)\n", prop, path, name, f.What)
